@@ -16,6 +16,7 @@ import (
 	"github.com/google/badwolf/bql/table"
 	"github.com/google/badwolf/storage"
 	"github.com/google/badwolf/triple"
+	"github.com/google/badwolf/triple/literal"
 )
 
 func renameQuery(q *bq.Query, sfx string) *bq.Query {
@@ -497,23 +498,103 @@ func firstWordAfter(text string) string {
 	return "plain"
 }
 
+// c14Large: patterns over thousands of rows, where the planner specialises the
+// next clause once per row in concurrent workers: the multiset of rows must be
+// the one obtained on a single processor, its size the one the data was built
+// to give, for joins, OPTIONAL (half of the rows without a match), three
+// clauses and a grouped count.
+func c14Large(r *rt.Rec, rng *rand.Rand, nSubjects, reps int) {
+	ctx := context.Background()
+	var ts []*triple.Triple
+	p, q, nn := gen.MustImm("p"), gen.MustImm("q"), gen.MustImm("n")
+	for i := 0; i < nSubjects; i++ {
+		s := gen.MustNode("/u", fmt.Sprintf("s%d", i))
+		ts = append(ts, gen.MustTriple(s, p, triple.NewNodeObject(gen.MustNode("/u", fmt.Sprintf("o%d", i%7)))))
+		if i%2 == 0 {
+			ts = append(ts, gen.MustTriple(s, q, triple.NewNodeObject(gen.MustNode("/u", fmt.Sprintf("x%d", i)))))
+		}
+		ts = append(ts, gen.MustTriple(s, nn, triple.NewLiteralObject(gen.MustLit(literal.Int64, int64(i%5)))))
+	}
+	rng.Shuffle(len(ts), func(a, b int) { ts[a], ts[b] = ts[b], ts[a] })
+	data := bq.Data{"?g1": ts}
+	st := bq.NewStore(ctx, data)
+	half := (nSubjects + 1) / 2
+	type lq struct {
+		text string
+		outs []string
+		rows int
+	}
+	qs := []lq{
+		{`SELECT ?s, ?o, ?x FROM ?g1 WHERE { ?s "p"@[] ?o . ?s "q"@[] ?x };`, []string{"?s", "?o", "?x"}, half},
+		{`SELECT ?s, ?o, ?x FROM ?g1 WHERE { ?s "p"@[] ?o . OPTIONAL { ?s "q"@[] ?x } };`, []string{"?s", "?o", "?x"}, nSubjects},
+		{`SELECT ?s, ?o, ?x, ?v FROM ?g1 WHERE { ?s "q"@[] ?x . ?s "p"@[] ?o . ?s "n"@[] ?v };`, []string{"?s", "?o", "?x", "?v"}, half},
+		{`SELECT ?s, ?x, ?v FROM ?g1 WHERE { ?s "n"@[] ?v . OPTIONAL { ?s "q"@[] ?x } . ?s "p"@[] /u<o3> };`, []string{"?s", "?x", "?v"}, (nSubjects + 3) / 7},
+		{`SELECT ?o, count(?s) AS ?c FROM ?g1 WHERE { ?s "p"@[] ?o . ?s "n"@[] ?v } GROUP BY ?o;`, []string{"?o", "?c"}, 7},
+	}
+	for _, lq := range qs {
+		old := runtime.GOMAXPROCS(1)
+		t0, err0, pan := execQ(ctx, r, st, lq.text, 0)
+		runtime.GOMAXPROCS(old)
+		if pan {
+			continue
+		}
+		r.Eval(1)
+		w := func() map[string]interface{} {
+			return map[string]interface{}{"statement": lq.text, "subjects": nSubjects, "data": "s_i p o_(i%7); s_i q x_i for even i; s_i n (i%5)"}
+		}
+		if err0 != nil || t0 == nil {
+			r.Violation("large/unexpected-error", fmt.Sprintf("the query failed on one processor: %v", err0), w())
+			continue
+		}
+		base := bq.TableRows(t0, lq.outs)
+		if len(base) != lq.rows {
+			ww := w()
+			ww["rows"], ww["expected"] = len(base), lq.rows
+			r.Violation("large/row-count/one-processor", fmt.Sprintf("the query returns %d rows on one processor, the data was built to give %d", len(base), lq.rows), ww)
+		}
+		for k := 0; k < reps; k++ {
+			old := runtime.GOMAXPROCS(16)
+			t, err, pan := execQ(ctx, r, st, lq.text, []int{0, 1, 64}[k%3])
+			runtime.GOMAXPROCS(old)
+			if pan {
+				break
+			}
+			r.Eval(1)
+			if err != nil || t == nil {
+				r.Violation("large/unexpected-error", fmt.Sprintf("the query failed on 16 processors: %v", err), w())
+				break
+			}
+			rows := bq.TableRows(t, lq.outs)
+			if a, b := cv.MultisetDiff(base, rows); len(a) > 0 || len(b) > 0 {
+				ww := w()
+				ww["lost"], ww["new"], ww["rows"], ww["expected"] = showAll(a, 4), showAll(b, 4), len(rows), lq.rows
+				r.Violation("large/rows-differ-between-executions", fmt.Sprintf("execution %d on 16 processors returns %d rows, %d of the %d rows of the single-processor execution are missing and %d are new", k, len(rows), len(a), len(base), len(b)), ww)
+				break
+			}
+		}
+		r.Nontrivial(fmt.Sprintf("large|%d|%s", nSubjects, lq.text))
+	}
+	r.Count("large_pattern_rows", nSubjects)
+}
+
 func init() {
 	register(&rt.Check{
 		ID:    "C14",
 		Level: "exploration",
-		Rule: "base SELECT queries without LIMIT or FILTER from the C03/C10/C11 generators (2-4 clause patterns with shared bindings, extractions, an OPTIONAL clause, GROUP BY with count) over sparse and dense data; variants: 1 repeated execution, chanSize 1/7/64, GOMAXPROCS 1/2/16, consistent renaming of every binding, the data partitioned at random over 2-3 graphs listed in FROM, every permutation of <=4 non-OPTIONAL clauses, a random superset of the data (monotonicity; no OPTIONAL/aggregate), and the query with ORDER BY over all output bindings executed 20 times and through every other plan (clause orders, partitioned data, GOMAXPROCS 1/16); patterns with a bound whose limits are time bindings of earlier clauses (never permuted); ~17 read-only statements (HAVING with different constants of one kind, ORDER BY, GROUP BY, OPTIONAL, bounds, generated patterns) executed alone and then all at once, 12 times each, on one store; the parallel variants also under -race; " +
+		Rule: "base SELECT queries without LIMIT or FILTER from the C03/C10/C11 generators (2-4 clause patterns with shared bindings, extractions, an OPTIONAL clause, GROUP BY with count) over sparse and dense data; variants: 1 repeated execution, chanSize 1/7/64, GOMAXPROCS 1/2/16, consistent renaming of every binding, the data partitioned at random over 2-3 graphs listed in FROM, every permutation of <=4 non-OPTIONAL clauses, a random superset of the data (monotonicity; no OPTIONAL/aggregate), and the query with ORDER BY over all output bindings executed 20 times and through every other plan (clause orders, partitioned data, GOMAXPROCS 1/16); patterns with a bound whose limits are time bindings of earlier clauses (never permuted); ~17 read-only statements (HAVING with different constants of one kind, ORDER BY, GROUP BY, OPTIONAL, bounds, generated patterns) executed alone and then all at once, 12 times each, on one store; joins, OPTIONAL, three-clause and grouped patterns over thousands of rows (one concurrent worker per row) executed on one and on 16 processors; the parallel variants also under -race; " +
 			"oracle: purely metamorphic - equal multisets of canonical rows (base subset of superset; identical sequence for the total order); non-trivial = base result has >=2 rows; distinct by statement text + data",
 		Assume: []string{"two cells are the same value when their accessor-based canonical forms agree (zone ignored)", "a total order is obtained by listing every output binding in ORDER BY; ties between rows that are equal as values but printed differently are compared canonically"},
 		Floor:  100,
 		Phases: func(tier string, seed int64) []rt.Phase {
-			n, rc, cn := 960, 64, 64
+			n, rc, cn, lg := 960, 64, 64, 1500
 			if tier == "thorough" {
-				n, rc, cn = 9600, 640, 640
+				n, rc, cn, lg = 9600, 640, 640, 6000
 			}
 			return []rt.Phase{
 				{Name: "variants", N: 32, Run: func(i int, r *rt.Rec) { c14Run(r, gen.Rng(seed, "c14", i), n/32) }},
 				{Name: "concurrent", N: 16, Run: func(i int, r *rt.Rec) { c14Concurrent(r, gen.Rng(seed, "c14c", i), cn/16, 12) }},
 				{Name: "concurrent-race", N: 16, Race: true, Run: func(i int, r *rt.Rec) { c14Concurrent(r, gen.Rng(seed, "c14cr", i), cn/32, 4) }},
+				{Name: "large", N: 4, Procs: 16, Run: func(i int, r *rt.Rec) { c14Large(r, gen.Rng(seed, "c14l", i), lg+i*37, 6) }},
 				{Name: "variants-race", N: 16, Race: true, Run: func(i int, r *rt.Rec) { c14Run(r, gen.Rng(seed, "c14r", i), rc/16) }},
 			}
 		},
